@@ -18,7 +18,7 @@ cap are `Gen.transferFacts`, re-extracted from src/stream.rs on every run.  `+` 
 addition in ℕ (no wrap-around).  All theorems hold for both build profiles (`m`).
 
 clause → theorem
-* facts the proofs rest on (re-checked by `decide`) ........... `ack_cap_fact`, `ack_file_fact`, `credit_add_fact`, `credit_shape_fact`
+* facts the proofs rest on (re-checked by `decide`) ........... `ack_cap_fact`, `ack_file_fact`, `credit_add_fact`
 * acked ≤ sent after every history .......................... `acked_le_sent`
 * foreign-file or stale ack changes nothing ................. `foreign_or_stale_ack_inert`
 * credit granted ⇒ nothing in flight ∨ in-flight + len ≤ window `credit_sound`  (and never a panic: `credit_never_panics`; converse: `credit_granted_iff`)
@@ -41,9 +41,6 @@ theorem ack_file_fact : F.ackFileTest = true := by decide
 /-- `in_flight + chunk_len` is not a bare `+` (which wraps in release builds and panics under the mutex
 in dev builds): it is a checked or a saturating add. -/
 theorem credit_add_fact : F.creditAdd ≠ .unchecked := by decide
-/-- The predicate has the oversized-chunk clause `in_flight == 0 ||` and compares with `<=`. -/
-theorem credit_shape_fact : F.creditZero = true ∧ F.creditLe = true := by decide
-
 /-- The credit sum is exact: a checked add always, a saturating add unless the window is `u64::MAX`. -/
 theorem credit_exact (w : Nat) (hw : F.creditAdd = .checked ∨ w + 1 < U64) : CreditExact F w := by
   rcases hw with h | h
@@ -81,7 +78,7 @@ theorem credit_sound (m : OvMode) (s : State) (len : Nat) (hw : F.creditAdd = .c
     s.cancelled = none ∧ (inFlight s = 0 ∨ inFlight s + len ≤ s.window) :=
   (waitCredit_ok ((credit_exact _ hw).addExact _ _) h).2
 
-example : (step F .checks { window := 8, capacity := 0, sent := 4, acked := 1 } (.waitCredit 5)).2 = .creditOk := by decide
+example : (step F .checks { window := 8, capacity := 0, sent := 4, acked := 1 } (.waitCredit 4)).2 = .creditOk := by decide
 example : (step F .wraps { window := 8, capacity := 0, sent := 4, acked := 1 } (.waitCredit 6)).2 = .creditTimeout := by decide
 
 /-- The credit wait never panics (so never poisons the mutex) and never changes the state. -/
@@ -89,11 +86,15 @@ theorem credit_never_panics (m : OvMode) (s : State) (len : Nat) (hp : s.poisone
     (step F m s (.waitCredit len)).1 = s ∧ (step F m s (.waitCredit len)).2 ≠ .panic :=
   waitCredit_no_panic (Or.inl credit_add_fact) hp
 
-/-- With an expired deadline the wait grants exactly when the predicate holds, else reports a timeout. -/
-theorem credit_granted_iff (m : OvMode) (s : State) (len : Nat) (hw : s.window < U64)
+/-- (Converse, beyond the property.) While the predicate keeps today's shape — the oversized-chunk clause
+`in_flight == 0 ||` and `<=` — a wait with an expired deadline grants exactly when the predicate holds.
+The shape is a hypothesis, not a checked fact: a stricter predicate (`<`, no zero clause) still satisfies
+C11 and must not break this file. -/
+theorem credit_granted_iff (hz : F.creditZero = true) (hle : F.creditLe = true)
+    (m : OvMode) (s : State) (len : Nat) (hw : s.window < U64)
     (hx : F.creditAdd = .checked ∨ s.window + 1 < U64) (hp : s.poisoned = false) (hc : s.cancelled = none) :
     (step F m s (.waitCredit len)).2 = .creditOk ↔ (inFlight s = 0 ∨ inFlight s + len ≤ s.window) :=
-  waitCredit_iff credit_shape_fact.1 credit_shape_fact.2 ((credit_exact _ hx).addExact _ _) hw hp hc
+  waitCredit_iff hz hle ((credit_exact _ hx).addExact _ _) hw hp hc
 
 /-! ### the documented producer loop
 
@@ -124,7 +125,7 @@ theorem loop_bound_prefix (m : OvMode) (window capacity : Nat) (hw : F.creditAdd
 /-- non-vacuity: window 4; chunk of 3 granted and sent; a second chunk of 3 is refused until an ack arrives;
 a hostile ack for another file in between changes nothing. -/
 example : Follows F .checks (init 4 0) {}
-    [.waitCredit 3, .recordSent 3, .waitCredit 3, .recordAck 7 3, .recordAck 0 2, .waitCredit 3, .recordSent 6] := by
+    [.waitCredit 3, .recordSent 3, .waitCredit 3, .recordAck 7 3, .recordAck 0 3, .waitCredit 3, .recordSent 6] := by
   decide
 
 /-! ### cancellation -/
